@@ -48,6 +48,8 @@ PURE = {
     "std::convert::From::from": "from",
     "std::option::Option::map": "Option::map",
     "std::option::Option::and_then": "Option::and_then",
+    "std::option::Option::map_or": "Option::map_or",
+    "std::option::Option::map_or_else": "Option::map_or_else",
     "std::option::Option::unwrap_or": "Option::unwrap_or",
     "std::option::Option::cloned": "Option::cloned",
     "std::option::Option::copied": "Option::copied",
